@@ -24,9 +24,15 @@ ASSUME UniverseSane
 \* the families of structured programs: sizes, corner elements, unique ids, the nesting bound
 FamIds(f) == {FamCase(f, i).id : i \in 1..FamSize(f)}
 FamiliesSane ==
-    /\ Families = <<"nest", "nestraw", "nestsolo", "place", "cyc", "selfty">>
+    /\ Families = <<"nest", "nestraw", "nestsolo", "place", "cyc", "selfty", "text", "entry">>
     /\ NestK = 22 /\ FamSize("nest") = 22 * 22 * 16 /\ FamSize("nestraw") = 4 * 4 * 16 /\ FamSize("nestsolo") = 10 * 16 + 8
-    /\ FamSize("place") = 5 * 13 * 4 * 2 + 14 * 8 /\ FamSize("cyc") = 512 /\ FamSize("selfty") = 7 * 14 * 2
+    /\ FamSize("place") = 5 * 13 * 4 * 2 + 14 * 8 /\ FamSize("cyc") = 512 /\ FamSize("selfty") = 11 * 22 * 2
+    /\ FamSize("text") = 4 * 4 * 3 * 3 * 7 * 3 * 3 /\ FamSize("entry") = 8 * 5 * 5 * 6 + 8 * 6
+    /\ TextCase(1).id = "text:string:n1:b2:first:l0:none:none" /\ TextCase(TextSize).id = "text:errchar:n4:b4:last:l6:ident:here"
+    /\ TextCase(2269 + 567 + 189 + 3).files[1].text =          \* comment, 2 lines, 3-byte characters on the first line, op, none
+          FamLines(<<"y :: " \o DQ \o "t" \o DQ, "// @3@a@3@ab", "s :: " \o DQ \o "t" \o DQ \o " + " \o DQ \o "t" \o DQ \o " // ">>
+                   \o <<"start :: fn do", "end">>)
+    /\ EntryCase(151).id = "entry:fromuse:fnvoid:fnvoid:single:nostd" /\ EntryCase(152).files[2].text = "start :: fn do end" \o NL
     /\ NestId(1) = "nest:ifbody/ifbody:d8:last:ok" /\ NestId(2) = "nest:ifbody/ifbody:d8:last:err"
     /\ NestId(3) = "nest:ifbody/ifbody:d8:mid:ok" /\ NestId(5) = "nest:ifbody/ifbody:d16:last:ok"
     /\ NestId(17) = "nest:ifbody/ifcond:d8:last:ok" /\ NestId(NestSize) = "nest:neg/neg:d32:mid:err"
@@ -35,12 +41,12 @@ FamiliesSane ==
             "else", "0", "end", "else", "0", "end", "else", "0", "end", "else", "0", "end",
             "else", "0", "end", "else", "0", "end", "else", "0", "end", "else", "0", "end",
             "end", "start :: fn do", "w := h()", "end">>)
-    /\ \A f \in {"nestraw", "nestsolo", "place", "cyc", "selfty"} : Cardinality(FamIds(f)) = FamSize(f)
+    /\ \A f \in {"nestraw", "nestsolo", "place", "cyc", "selfty", "text", "entry"} : Cardinality(FamIds(f)) = FamSize(f)
     /\ Cardinality({NestId(i) : i \in 1..NestSize}) = NestSize
     \* every member is nested at least as deep as its depth class says and never deeper than the bound of the property
     /\ \A i \in 1..NestSize : NestPiece(i).n >= NestDepthOf(i - 1) /\ NestPiece(i).n <= NestDepthOf(i - 1) + 1
     /\ NestDepths[Len(NestDepths)] + 1 <= NestMaxLevels /\ NestMaxLevels = 40
-    /\ \A f \in {"nestsolo", "place", "cyc", "selfty"} : \A i \in 1..FamSize(f) :
+    /\ \A f \in {"nestsolo", "place", "cyc", "selfty", "text", "entry"} : \A i \in 1..FamSize(f) :
           LET c == FamCase(f, i) IN c.files[1].name = "main.sy" /\ \A q \in 1..Len(c.files) : Len(c.files[q].text) > 0
 ASSUME FamiliesSane
 =============================================================================
